@@ -336,7 +336,13 @@ func judge(sc *Scenario, out *ChildOut) *Verdict {
 				v.OrderChecks++
 				for _, ru := range runs[r] {
 					if ru.se < t.begin && t.begin < ru.te {
-						add("C01:stop-order:dependent-still-started",
+						// two different failures of the mechanism: the dependent was not
+						// asked to stop at all, or its stop routine was still running
+						sig := "C01:stop-order:dependent-still-started"
+						if ru.tb < t.begin {
+							sig = "C01:stop-order:dependent-stop-still-running"
+						}
+						add(sig,
 							"stop routine of %s (#%d) began at seq %d although %s, which depends on it, was started (start ended ok at seq %d) and had not completely stopped (stop begin=%s end=%s)",
 							n, t.n, t.begin, r, ru.se, seqStr(ru.tb), seqStr(ru.te))
 					} else if ru.sb < t.begin && t.begin < ru.se {
@@ -462,6 +468,14 @@ func judge(sc *Scenario, out *ChildOut) *Verdict {
 		return false
 	}
 	lateRun := func(n string) bool { // last successful start ended after the API call that launched it had returned
+		// the snapshot after a failed pass showing "starting" says the same (the only
+		// observation for a nil start function; also covers a callback that had returned
+		// but whose result portbase had not processed yet when the pass returned)
+		for _, c := range calls {
+			if c.op != "Shutdown" && c.err != "" && c.snap != nil && c.snap[n] == stStarting && !lastStartFailed(n) {
+				return true
+			}
+		}
 		rs := runs[n]
 		if len(rs) == 0 {
 			return false
